@@ -765,3 +765,43 @@ func (ts *typestate) checkCounterNoReset(rule string) {
 		r.Fail("%s: no transition from a post-handshake counter state (extraction stale)", rule)
 	}
 }
+
+// checkEstablishedIgnoresHello: once a session has delivered application data it is established; a
+// fresh InitHello (a restarted peer, or the peer's rekey) must then fall through the session — an error
+// or an empty reply — so that Channel.Deliver goes on to create a new session. A session that keeps
+// answering hellos with a cached handshake message swallows every new handshake until it expires.
+func (ts *typestate) checkEstablishedIgnoresHello(rule string) {
+	r := ts.r
+	established := map[tsState]bool{}
+	for _, t := range ts.trans {
+		if t.out.Panic || !strings.HasPrefix(t.op, "Deliver") {
+			continue
+		}
+		if t.isApp.K == core.ABool && t.isApp.B && t.errVal.K != core.ANonNil {
+			established[t.to] = true
+		}
+	}
+	// closure under further non-failing transitions
+	for changed := true; changed; {
+		changed = false
+		for _, t := range ts.trans {
+			if established[t.from] && !t.out.Panic && !established[t.to] {
+				established[t.to] = true
+				changed = true
+			}
+		}
+	}
+	n := 0
+	for _, t := range ts.trans {
+		if !established[t.from] || t.out.Panic || t.op != "Deliver(0)" {
+			continue
+		}
+		n++
+		c := fmt.Sprintf("%s --%s[%s]", t.from, t.op, labelsOf(t.out))
+		answers := t.errVal.K != core.ANonNil && t.emitted >= 0
+		r.Check(!answers, rule, c, r.P.Pos(ts.deliver.Pos()), "an InitHello delivered to an established session yields an error or an empty reply", fmt.Sprintf("a session that has already carried application data (%s) answers an InitHello with its cached handshake message (slot %d): Channel.Deliver takes that reply as 'handled' and never creates a session for the new handshake, so a restarted peer or a rekey is stonewalled until this session expires", t.from, t.emitted))
+	}
+	if n == 0 {
+		r.Fail("%s: no InitHello transition from an established state in the extracted machine", rule)
+	}
+}
